@@ -5,6 +5,9 @@ functions of `Flatland/PyList.lean`; `α` is what a member is abstracted to.
 
 * `α = Sig` (the member's `(value, u)`, which is what `Element.__eq__` compares): the refinement
   holds — `Proofs.C09`.
+  `ROp.sortNoKey` is `sort()` on a list of objects without ordering (a list of elements, not of
+  ints: recorded non-defect); `ROp.imul count re` is `l *= count` where each repeated item is a
+  fresh `member_schema(value)` of the old member's value (`re`), `re = id` being CPython's.
 * `α = Raw` (the member's `.value` alone, the literal reading of the statement): `C09_Full`
   below; false of the code as it is, because an unadaptable member (value None, u = the text)
   is not equal to a member holding None.
@@ -19,7 +22,9 @@ inductive ROp (α : Type)
   | setitem (i : Int) (a : α) | setslice (s : Slice) (as : List α)
   | delitem (i : Int) | delslice (s : Slice) | pop (i : Option Int) | remove (a : α)
   | reverse | sort (le : α → α → Bool)
-  | assign (as : List α)                     -- `l[:] = as` (what `set(iterable)` amounts to)
+  | sortNoKey                                -- `l.sort()` on items that define no ordering (elements do not)
+  | imul (count : Int) (re : α → α)          -- `l *= count`, every repeated item passed through `re` (`id` for a plain list)
+  | assign (as : List α)                     -- `l[:] = as` (what `set(iterable)` / `clear` / `set_default` amount to)
   | len | getitem (i : Int) | getslice (s : Slice)
   | contains (a : α) | index (a : α) | count (a : α)
 
@@ -59,6 +64,14 @@ def refStep {α : Type} [BEq α] (l : List α) : ROp α → List α × ROut α
      | some l' => (l', .ok))
   | .reverse => (l.reverse, .ok)
   | .sort le => (sortBy le l, .ok)
+  | .sortNoKey =>
+    -- no comparison is made for fewer than two items; the first comparison raises TypeError and
+    -- leaves the list as it was
+    (l, if l.length ≤ 1 then .ok else .exc .typeError)
+  | .imul count re =>
+    -- `count <= 0` empties the list; otherwise `count - 1` copies of the items are appended
+    if count ≤ 0 then ([], .ok)
+    else (l ++ (List.replicate (count.toNat - 1) (l.map re)).flatten, .ok)
   | .assign as => (as, .ok)
   | .len => (l, .nat l.length)
   | .getitem i =>
